@@ -361,7 +361,7 @@ def run_program_case(case, tier):
                 pr *= c["probs"][c["chosen"]]
             total_prob += pr
             # joint outcome of all samples of this simulate() call (the samples are independent runs)
-            key = tuple(tuple(sorted((k, round(v, 9)) for k, v in r[-1].items())) for r in runs)
+            key = tuple(tuple(sorted((k, float(f"{v:.13g}")) for k, v in r[-1].items())) for r in runs)
             law[key] = law.get(key, 0.0) + pr
             # next path (depth-first over the discrete choices, skipping zero-probability alternatives)
             chosen = [c["chosen"] for c in disc]
@@ -402,11 +402,15 @@ def run_program_case(case, tier):
                     for key, p in law.items():
                         last = dict(key[-1])           # the LAST sample of the call
                         vec = [last.get(v) for v in names]
-                        hit = None
+                        hit, best = None, None
                         for j, (rv, _) in enumerate(ref_states):
-                            if all(a is not None and close(a, b, 1e-7) for a, b in zip(vec, rv)):
-                                hit = j
+                            if any(a is None for a in vec):
                                 break
+                            dist_ = max(abs(a - b) / max(1.0, abs(a), abs(b)) for a, b in zip(vec, rv))
+                            if best is None or dist_ < best:
+                                hit, best = j, dist_
+                        if best is None or best > 1e-9:   # nearest exact state; doubles are good to ~1e-15 relative, keys keep 13 digits
+                            hit = None
                         if hit is None:
                             if p > 1e-12:
                                 unmatched = (vec, p)
